@@ -130,7 +130,11 @@ def basecase(fn_zeroth_deriv, domain=DOM_ALL, extras=0):
                 raise ValueError('unexpected keyword args: %s' % kwargs)
             if n < 0:
                 raise ValueError('n must be a nonnegative integer')
+            n = int(n)    # a NumPy integer order would overflow in factorial(n) * pow(-1, n)
             if n:
+                if isinstance(args[-1], (list, tuple)):
+                    # array_like points are accepted at order 0: accept them at every order
+                    args = args[:-1] + (np.asarray(args[-1]),)
                 if np.asarray(args[-1]).dtype.kind in 'biu':
                     # a derivative at an integer-typed point is not an integer:
                     # evaluate the closed forms in floating point
@@ -475,11 +479,20 @@ def reciprocal(x, out=None, n=0):
 
 @basecase(np.sin)
 def sin(x, out=None, n=0):
-    return np.sin(0.5 * n * np.pi + x, out)
+    # the derivatives cycle through sin, cos, -sin, -cos; sin(n pi/2 + x) rounds the shifted
+    # argument (absolute error 1e-6 at x = 1e10, no relative accuracy near the zeros)
+    y = (np.sin, np.cos, np.sin, np.cos)[n % 4](x, out)
+    if n % 4 in (2, 3):
+        y = np.negative(y, out)
+    return y
 
 @basecase(np.cos)
 def cos(x, out=None, n=0):
-    return np.cos(0.5 * n * np.pi + x, out)
+    # cos, -sin, -cos, sin
+    y = (np.cos, np.sin, np.cos, np.sin)[n % 4](x, out)
+    if n % 4 in (1, 2):
+        y = np.negative(y, out)
+    return y
 
 @basecase(np.tan)
 def tan(x, out=None, n=0):
